@@ -81,6 +81,33 @@ Theorem C20_wf_invariant : forall n p, srv_wf n (snd (srv_run (srv_init n) p)).
 Proof. intros n p. apply srv_run_wf. apply srv_wf_init. Qed.
 Print Assumptions C20_wf_invariant.
 
+(* ------------------------------------------------------------------ C20_one_keyspace_per_index *)
+(* Database number i is ONE keyspace, shared by all connections that have selected i: after any
+   interleaved program of any number of connections, the content of database i is what the
+   commands addressed to i ([addressed]: the non-SELECT commands issued, by whichever connection,
+   while that connection had i selected), in the order the server executed them, produce on that
+   single database -- and each of those commands was answered from that single database.  So a
+   write by c1 in database i is visible to every c2 with sel c2 = i, whenever and in whatever
+   order the connections selected i. *)
+Theorem C20_one_keyspace_per_index : forall p i s d,
+  nth_error (sdbs s) i = Some d ->
+  let a := addressed i s p in
+  nth_error (sdbs (snd (srv_run s p))) i = Some (snd (db_run d (map fst a))) /\
+  map snd a = fst (db_run d (map fst a)).
+Proof. exact one_keyspace_per_index. Qed.
+Print Assumptions C20_one_keyspace_per_index.
+
+(* two-step form: c2 reads what c1 left, for any two connections selecting the same index *)
+Theorem C20_write_visible_same_index :
+  forall s c1 c2 now1 nowms1 args1 hint1 now2 nowms2 args2 hint2 d,
+  sel_lookup c1 (ssel s) = sel_lookup c2 (ssel s) ->
+  nth_error (sdbs s) (sel_lookup c1 (ssel s)) = Some d ->
+  is_select args1 = false -> args1 <> [] -> is_select args2 = false -> args2 <> [] ->
+  fst (srv_exec (snd (srv_exec s c1 now1 nowms1 args1 hint1)) c2 now2 nowms2 args2 hint2) =
+  fst (exec (snd (exec d now1 nowms1 args1 hint1)) now2 nowms2 args2 hint2).
+Proof. exact write_visible_same_index. Qed.
+Print Assumptions C20_write_visible_same_index.
+
 (* ------------------------------------------------------------------ C20_per_connection *)
 (* For every interleaved program of any number of connections, started from any server state:
    the database connection c has selected at the end is the one it would have selected had only
@@ -123,3 +150,17 @@ Proof. vm_compute. repeat split. Qed.
 
 Example ex_wf : srv_wf 16 (srv_init 16) /\ (16 > 0)%nat.
 Proof. split; [apply srv_wf_init|lia]. Qed.
+
+(* the concurrent scenario of the check, in any of its linearizations: three connections select
+   database 5 "at the same time" (here: 2, 3, 1), each writes its key, then everybody reads
+   everybody's key -- and a fourth connection that selects 5 later sees them too *)
+Example ex_one_keyspace :
+  fst (srv_run (srv_init 16)
+    [ss 2 [B "SELECT"; B "5"]; ss 3 [B "SELECT"; B "5"]; ss 1 [B "SELECT"; B "5"];
+     ss 3 [B "SET"; B "k3"; B "v3"]; ss 1 [B "SET"; B "k1"; B "v1"]; ss 2 [B "SET"; B "k2"; B "v2"];
+     ss 1 [B "MGET"; B "k1"; B "k2"; B "k3"]; ss 2 [B "MGET"; B "k1"; B "k2"; B "k3"];
+     ss 3 [B "MGET"; B "k1"; B "k2"; B "k3"]; ss 4 [B "GET"; B "k1"]; ss 4 [B "SELECT"; B "5"]; ss 4 [B "GET"; B "k1"]])
+  = [rOK; rOK; rOK; rOK; rOK; rOK;
+     RArr [RBulk (B "v1"); RBulk (B "v2"); RBulk (B "v3")]; RArr [RBulk (B "v1"); RBulk (B "v2"); RBulk (B "v3")];
+     RArr [RBulk (B "v1"); RBulk (B "v2"); RBulk (B "v3")]; RNil; rOK; RBulk (B "v1")].
+Proof. vm_compute. reflexivity. Qed.
